@@ -1,6 +1,8 @@
 (* Properties/C15.v -- the query path is free of data races (lock-set half).
    The instance for the table regenerated from /repo on every run is Properties/C15_instance.v. *)
-From NX Require Import Bytes Locks LockFacts.
+From NX Require Import Bytes Locks LockFacts Resolver LastModFacts.
+From Coq Require Import Permutation.
+Open Scope Z_scope.
 
 (* generic: a table that passes the lock-set check admits no racy schedule, for any
    number of threads each running any path of the table *)
@@ -9,3 +11,19 @@ Theorem C15_lockset_sound : forall tbl, table_ok tbl = true ->
 Proof. exact table_ok_sound. Qed.
 Print Assumptions C15_lockset_sound.
 
+
+(* "every reply is one that some sequential order of the same queries could have produced", for the
+   state that concurrent responses share -- the per-profile last-modified register: every sequential
+   order of the same announcements leaves the same value, their maximum; the register never moves
+   backwards and covers every announced stamp.  The concurrent engine compares the implementation's
+   value after a burst of simultaneous responses with this one. *)
+Theorem C15_lastmod_any_order : forall l url ts ts', Permutation ts ts' ->
+  lastmod (apply_stamps l url ts') url = max_stamp (lastmod l url) ts.
+Proof. exact lastmod_order_independent. Qed.
+Print Assumptions C15_lastmod_any_order.
+Theorem C15_lastmod_monotone : forall l url ts, lastmod l url <= lastmod (apply_stamps l url ts) url.
+Proof. exact lastmod_monotone. Qed.
+Print Assumptions C15_lastmod_monotone.
+Theorem C15_lastmod_covers : forall l url ts t, In t ts -> t <= lastmod (apply_stamps l url ts) url.
+Proof. exact lastmod_covers. Qed.
+Print Assumptions C15_lastmod_covers.
